@@ -44,6 +44,12 @@ Definition ph_bumps_R (dim g : R) : R :=
 Definition ph_dgauss_R (p t0 t1 ta tb : R) : R :=
   (ph_gauss_R p t1 - ph_gauss_R p t0) / (ph_gauss_R p tb - ph_gauss_R p ta).
 
+(* default exact solutions of Poisson1D (conductivity) and Heat1D (initial condition) at a grid point g *)
+Definition poisson_default_R (ep g : R) : R := exp (5 * g * exp (- 2 * g) * sin (ep - g)).
+Definition heat_default_R (ep g : R) : R := g * exp (- 2 * g) * sin (ep - g).
+(* increments of the Gauss phantom (derivGauss before normalisation) *)
+Definition dgauss_inc_R (p t0 t1 : R) : R := ph_gauss_R p t1 - ph_gauss_R p t0.
+
 (* the reduction + interval tactic used by the generated ENCLOSURE cases lives in Model/C17_Encl.v, so that the
    property theorems (and coqchk on them) do not depend on the Interval library *)
 
